@@ -179,19 +179,45 @@ def straightline(src, fn, targets, params, tables, consts, abstract=()):
             if t in env:
                 env[t] = "(%s * D2R)" % env[t]
             continue
-        if isinstance(st, ast.If):
-            # allowed: blocks that raise, set is_scalar, or fill the tables (no assignment to a name we track as arithmetic)
-            assigned = {n.targets[0].id for n in ast.walk(st) if isinstance(n, ast.Assign) and isinstance(n.targets[0], ast.Name)}
-            assigned |= {n.target.id for n in ast.walk(st) if isinstance(n, ast.AugAssign) and isinstance(n.target, ast.Name)}
-            for t in assigned:
-                if t in env and t not in tables:
-                    env.pop(t, None)
-            continue
-        # anything else (tuple assignment of np.where, bare calls): names it may change become unknown
-        for n in ast.walk(st):
-            if isinstance(n, ast.Name) and isinstance(n.ctx, ast.Store):
-                env.pop(n.id, None)
+        # anything else (if blocks, tuple assignment of np.where, bare calls): every name it may change -- assigned,
+        # stored into through a subscript/attribute, or handed to a call that is a statement of its own (in-place
+        # ufuncs, atbound) -- becomes unknown; needing it later is a translation error
+        for t in _clobbered(st):
+            if t not in tables:
+                env.pop(t, None)
     return None
+
+
+def _clobbered(st):
+    """names a statement (with everything nested in it) may change"""
+    out = set()
+    for n in ast.walk(st):
+        if isinstance(n, ast.Name) and isinstance(n.ctx, (ast.Store, ast.Del)):
+            out.add(n.id)
+        elif isinstance(n, (ast.Subscript, ast.Attribute)) and isinstance(n.ctx, (ast.Store, ast.Del)):
+            b = n
+            while isinstance(b, (ast.Subscript, ast.Attribute)):
+                b = b.value
+            if isinstance(b, ast.Name):
+                out.add(b.id)
+        elif isinstance(n, ast.Expr) and isinstance(n.value, ast.Call):
+            for a in list(n.value.args) + [k.value for k in n.value.keywords]:
+                for m in ast.walk(a):
+                    if isinstance(m, ast.Name):
+                        out.add(m.id)
+    return out
+
+
+def single_exit(fn):
+    """fail closed on shortcuts: the only `return` of a modelled routine is its last top-level statement (the model has
+    one formula chain; an early return for special argument values would be a second, unmodelled one)"""
+    rets = [n for n in ast.walk(fn) if isinstance(n, ast.Return)]
+    top = [st for st in fn.body if isinstance(st, ast.Return)]
+    _need(len(rets) == len(top) and len(top) <= 1 and (not top or fn.body[-1] is top[0]),
+          "%s has exactly one exit, its last statement (found %d return statement(s), %d nested)" % (fn.name, len(rets), len(rets) - len(top)))
+    for n in ast.walk(fn):
+        _need(not isinstance(n, (ast.Try, ast.With, ast.Global, ast.Nonlocal, ast.Lambda, ast.FunctionDef)) or n is fn,
+              "%s contains no try/with/global/nested function (line %d)" % (fn.name, getattr(n, "lineno", 0)))
 
 
 CMP = {ast.Gt: "CGt", ast.GtE: "CGe", ast.Lt: "CLt", ast.LtE: "CLe", ast.Eq: "CEq"}
@@ -251,6 +277,20 @@ def extract(path):
     for f in ("euler", "eq2gal", "gal2eq", "eq2ec", "ec2eq", "ec2gal", "gal2ec", "eq2sdss", "sdss2eq", "eq2xyz",
               "xyz2eq", "atbound", "atbound2", "shiftlon", "shiftra", "rotate"):
         _need(f in s.funcs, "function " + f)
+    for f in ("euler", "eq2gal", "gal2eq", "eq2ec", "ec2eq", "ec2gal", "gal2ec", "eq2sdss", "sdss2eq", "eq2xyz", "xyz2eq",
+              "_thetaphi2xyz", "_xyz2thetaphi", "atbound", "atbound2", "shiftlon", "shiftra", "rotate"):
+        _need(f in s.funcs, "function " + f)
+        single_exit(s.funcs[f])
+    # module-level state other than the constants read above would be carried across calls
+    known_globals = {"PI", "HALFPI", "D2R", "R2D", "_sdsspar"}
+    for n in s.tree.body:
+        if isinstance(n, (ast.Assign, ast.AugAssign, ast.AnnAssign)):
+            for t in ([n.target] if not isinstance(n, ast.Assign) else n.targets):
+                b = t
+                while isinstance(b, (ast.Subscript, ast.Attribute)):
+                    b = b.value
+                _need(isinstance(b, ast.Name) and b.id in known_globals,
+                      "no module-level variable besides PI, HALFPI, D2R, R2D, _sdsspar (line %d)" % n.lineno)
     eu = s.funcs["euler"]
     ifs = [n for n in eu.body if isinstance(n, ast.If) and _is_name(n.test, "b1950")]
     _need(len(ifs) == 1, "exactly one `if b1950:` in euler")
